@@ -15,6 +15,8 @@
 //   dmp  <nc> M <corr> <hex>                | ok <data> <bytes left>            | fail       in decoder order, read off the bytes)
 //   tc   M <pos> <data> <orientations>      | ok <corr> <hex>                   | fail      (orientations in push order)
 //   dtc  M <pos> <corr> <hex>               | ok <data> <bytes left>            | fail
+//   gn   <q> M <pos> <data> <flip bits>     | ok <corr> <hex>                   | fail      (octahedral coordinates, q bits)
+//   dgn  M <pos> <corr> <hex>               | ok <data> <bytes left>            | fail
 // '!' lines: decode(encode(x)) != x on the implementation.
 #include "common.h"
 #include <algorithm>
@@ -26,6 +28,11 @@
 #include "draco/compression/attributes/prediction_schemes/mesh_prediction_scheme_constrained_multi_parallelogram_decoder.h"
 #include "draco/compression/attributes/prediction_schemes/mesh_prediction_scheme_constrained_multi_parallelogram_encoder.h"
 #include "draco/compression/attributes/prediction_schemes/mesh_prediction_scheme_data.h"
+#include "draco/compression/attributes/normal_compression_utils.h"
+#include "draco/compression/attributes/prediction_schemes/mesh_prediction_scheme_geometric_normal_decoder.h"
+#include "draco/compression/attributes/prediction_schemes/mesh_prediction_scheme_geometric_normal_encoder.h"
+#include "draco/compression/attributes/prediction_schemes/prediction_scheme_normal_octahedron_canonicalized_decoding_transform.h"
+#include "draco/compression/attributes/prediction_schemes/prediction_scheme_normal_octahedron_canonicalized_encoding_transform.h"
 #include "draco/compression/attributes/prediction_schemes/mesh_prediction_scheme_parallelogram_decoder.h"
 #include "draco/compression/attributes/prediction_schemes/mesh_prediction_scheme_parallelogram_encoder.h"
 #include "draco/compression/attributes/prediction_schemes/mesh_prediction_scheme_tex_coords_portable_decoder.h"
@@ -52,6 +59,10 @@ typedef MeshPredictionSchemeConstrainedMultiParallelogramEncoder<int32_t, WE, MD
 typedef MeshPredictionSchemeConstrainedMultiParallelogramDecoder<int32_t, WD, MD> MpD;
 typedef MeshPredictionSchemeTexCoordsPortableEncoder<int32_t, WE, MD> TcE;
 typedef MeshPredictionSchemeTexCoordsPortableDecoder<int32_t, WD, MD> TcD;
+typedef PredictionSchemeNormalOctahedronCanonicalizedEncodingTransform<int32_t> OE;
+typedef PredictionSchemeNormalOctahedronCanonicalizedDecodingTransform<int32_t> OD;
+typedef MeshPredictionSchemeGeometricNormalEncoder<int32_t, OE, MD> GnE;
+typedef MeshPredictionSchemeGeometricNormalDecoder<int32_t, OD, MD> GnD;
 
 template <class T> static std::string join(const std::vector<T> &v) {
   if (v.empty()) return "-";
@@ -68,7 +79,7 @@ static std::string bits(const std::vector<bool> &v) {
 
 static long g_cnt[32];
 enum { N_PAR, N_MP, N_TC, N_PAR_USED, N_DELTA_USED, N_MP_FLAGS, N_MP_USED, N_TC_ORI, N_ENC_FAIL, N_HOSTILE, N_HOSTILE_FAIL,
-       N_MAP_BFS, N_MAP_RND, N_MAP_JUNK, N_GUARD_SKIP, N_TC_FALSE };
+       N_MAP_BFS, N_MAP_RND, N_MAP_JUNK, N_GUARD_SKIP, N_TC_FALSE, N_GN, N_GN_FLIPS, N_GN_CURTAIN, N_GN_DEGEN };
 
 // ------------------------------------------------------------------------------------------------ meshes
 typedef std::vector<int> Tris;
@@ -439,6 +450,131 @@ static void do_scheme(Rng &r, Out &o, const Case &c, const char *kind, bool host
   }
 }
 
+
+// ------------------------------------------------------------------------------------------------ geometric normal
+// position of ENTRY e = f(vertex whose entry is e); kinds: 0 random small, 1 random large (normalisation branch),
+// 2 curtain (x,y depend on the column only, z on the row only: every face is vertical, the predicted normal has z == 0),
+// 3 planar z = const, 4 all positions equal / collinear (zero normal: the (+center,0,0) fallback), 5 random huge
+static void gn_positions(Rng &r, Case &c, int kind) {
+  const int n = c.n();
+  c.pos.assign((size_t)n * 3, 0);
+  const CornerTable &ct = *c.ct;
+  int maxv = 0; for (int v : c.tris) maxv = std::max(maxv, v);
+  int w = 1; while ((w + 1) * (w + 1) <= maxv + 1) w++;
+  w = 1 + (int)r.below(w + 2);                                  // a column count (exact for square grids only; any value is fine)
+  std::vector<int64_t> fx(64), fy(64), fz(64);
+  int64_t lim = kind == 1 ? ((int64_t)1 << (14 + r.below(8))) : kind == 5 ? ((int64_t)1 << 29) - 1 : 1 + (int64_t)r.below(40);
+  for (int k = 0; k < 64; k++) { fx[k] = r.range(-lim, lim); fy[k] = r.range(-lim, lim); fz[k] = r.range(-lim, lim); }
+  int64_t dir[3] = {r.range(-5, 5), r.range(-5, 5), r.range(-5, 5)};
+  for (int v = 0; v < ct.num_vertices() && v < (int)c.v2d.size(); v++) {
+    const int e = c.v2d[v];
+    if (e < 0 || e >= n) continue;
+    const int pv = v <= maxv ? v : (int)ct.VertexParent(VertexIndex(v)).value();
+    const int col = (pv % (w + 1)) % 64, row = (pv / (w + 1)) % 64;
+    int64_t p[3];
+    switch (kind) {
+      case 2: p[0] = fx[col]; p[1] = fy[col]; p[2] = fz[row]; break;
+      case 3: p[0] = fx[col] + row; p[1] = fy[row] - col; p[2] = 7; break;
+      case 4: { int64_t t = r.chance(50) ? 0 : col + 3 * row; p[0] = 3 + t * dir[0]; p[1] = -2 + t * dir[1]; p[2] = t * dir[2]; break; }
+      default: p[0] = r.range(-lim, lim); p[1] = r.range(-lim, lim); p[2] = r.range(-lim, lim); break;
+    }
+    for (int k = 0; k < 3; k++) c.pos[(size_t)e * 3 + k] = (int32_t)p[k];
+  }
+}
+// canonical octahedral coordinates: near the area-weighted normal of the vertex (so that the flip choice matters), or random
+static void gn_values(Rng &r, Case &c, int q) {
+  OctahedronToolBox tb; tb.SetQuantizationBits(q);
+  const int n = c.n();
+  const int32_t mx = tb.max_value();
+  c.data.assign((size_t)n * 2, 0);
+  const CornerTable &ct = *c.ct;
+  std::vector<double> nrm((size_t)n * 3, 0.0);
+  for (int f = 0; f < ct.num_faces(); f++) {
+    int e[3]; bool ok = true;
+    for (int k = 0; k < 3; k++) { int v = ct.Vertex(CornerIndex(3 * f + k)).value(); e[k] = v < (int)c.v2d.size() ? c.v2d[v] : -1; if (e[k] < 0 || e[k] >= n) ok = false; }
+    if (!ok) continue;
+    double a[3], b[3];
+    for (int k = 0; k < 3; k++) { a[k] = (double)c.pos[3 * e[1] + k] - c.pos[3 * e[0] + k]; b[k] = (double)c.pos[3 * e[2] + k] - c.pos[3 * e[0] + k]; }
+    double cr[3] = {a[1] * b[2] - a[2] * b[1], a[2] * b[0] - a[0] * b[2], a[0] * b[1] - a[1] * b[0]};
+    for (int k = 0; k < 3; k++) for (int j = 0; j < 3; j++) nrm[3 * e[k] + j] += cr[j];
+  }
+  const int mode = (int)r.below(4);
+  for (int e = 0; e < n; e++) {
+    int32_t s, t;
+    if (mode == 0) { s = (int32_t)r.below((uint64_t)mx + 1); t = (int32_t)r.below((uint64_t)mx + 1); }
+    else {
+      double v[3] = {nrm[3 * e], nrm[3 * e + 1], nrm[3 * e + 2]};
+      if (r.chance(25)) for (int k = 0; k < 3; k++) v[k] = -v[k];
+      tb.FloatVectorToQuantizedOctahedralCoords(v, &s, &t);
+      if (mode >= 2) { int64_t d = mode == 2 ? 1 : 1 + mx / 16; s = (int32_t)std::max<int64_t>(0, std::min<int64_t>(mx, s + r.range(-d, d))); t = (int32_t)std::max<int64_t>(0, std::min<int64_t>(mx, t + r.range(-d, d))); }
+    }
+    if (r.chance(8)) { int32_t cand[3] = {0, mx, mx / 2}; s = cand[r.below(3)]; if (r.chance(50)) t = cand[r.below(3)]; }
+    tb.CanonicalizeOctahedralCoords(s, t, &s, &t);
+    c.data[2 * e] = s; c.data[2 * e + 1] = t;
+  }
+}
+static bool gn_run_dec(const Case &c, PosAtt &pa, const std::vector<int32_t> &corr, const std::vector<uint8_t> &bytes,
+                       std::vector<int32_t> &out, long &left) {
+  PointAttribute att;
+  att.Init(GeometryAttribute::NORMAL, 2, DT_INT32, false, c.n());
+  GnD dec(&att, OD(), c.md());
+  dec.SetParentAttribute(&pa.pos);
+  DecoderBuffer db;
+  db.Init((const char *)bytes.data(), bytes.size());
+  db.set_bitstream_version(kDracoMeshBitstreamVersion);
+  if (!dec.DecodePredictionData(&db)) return false;
+  out.assign(corr.size(), 0x3c3c3c3c);
+  if (!dec.ComputeOriginalValues(corr.data(), out.data(), c.n() * 2, 2, pa.e2p.data())) return false;
+  left = (long)db.remaining_size();
+  return true;
+}
+static void do_gn(Rng &r, Out &o, const Case &c, int q, bool hostile) {
+  PosAtt pa; pa.init(c);
+  PointAttribute att;
+  att.Init(GeometryAttribute::NORMAL, 2, DT_INT32, false, c.n());
+  GnE enc(&att, OE((int32_t)((1u << q) - 1)), c.md());
+  enc.SetParentAttribute(&pa.pos);
+  std::vector<int32_t> corr(c.data.size(), 0x5a5a5a5a);
+  EncoderBuffer eb;
+  const bool ok = enc.ComputeCorrectionValues(c.data.data(), corr.data(), c.n() * 2, 2, pa.e2p.data()) && enc.EncodePredictionData(&eb);
+  const std::string lhs = "gn " + S(q) + " " + c.M() + " " + join(c.pos) + " " + join(c.data);
+  if (!ok) { o.c(lhs + " -", "fail"); g_cnt[N_ENC_FAIL]++; return; }
+  std::vector<uint8_t> bytes((const uint8_t *)eb.data(), (const uint8_t *)eb.data() + eb.size());
+  // read the flip bits off the bytes: 8 bytes of transform data, then the RAnsBit block
+  std::vector<bool> flips;
+  {
+    DecoderBuffer db; db.Init((const char *)bytes.data(), bytes.size()); db.set_bitstream_version(kDracoMeshBitstreamVersion);
+    int32_t a, b; RAnsBitDecoder d;
+    if (!db.Decode(&a) || !db.Decode(&b) || !d.StartDecoding(&db)) { o.fail("pred-parse gn " + lhs); return; }
+    for (int e = 0; e < c.n(); e++) flips.push_back(d.DecodeNextBit());
+    d.EndDecoding();
+  }
+  for (bool f : flips) g_cnt[N_GN_FLIPS] += f;
+  o.c(lhs + " " + bits(flips), "ok " + join(corr) + " " + flat_bytes(bytes));
+  std::vector<uint8_t> tail = bytes;
+  const int extra = (int)r.below(4);
+  for (int i = 0; i < extra; i++) tail.push_back((uint8_t)r.below(256));
+  std::vector<int32_t> out; long left = -1;
+  const bool dok = gn_run_dec(c, pa, corr, tail, out, left);
+  const std::string dl = "dgn " + c.M() + " " + join(c.pos) + " ";
+  o.c(dl + join(corr) + " " + flat_bytes(tail), dok ? "ok " + join(out) + " " + S(left) : "fail");
+  if (!dok || out != c.data || left != extra)
+    o.fail("pred-roundtrip gn mapkind=" + S(c.map_kind) + " " + lhs + " decoded=" + (dok ? join(out) : std::string("fail")));
+  if (!hostile) return;
+  for (int rep = 0; rep < 2; rep++) {
+    std::vector<int32_t> hc = corr; std::vector<uint8_t> hb = bytes;
+    switch (r.below(3)) {
+      case 0: for (int k = 0, m = 1 + (int)r.below(3); k < m && !hc.empty(); k++) hc[r.below(hc.size())] = r.chance(50) ? (int32_t)r.biased(32) : (int32_t)r.below((uint64_t)1 << q); break;
+      case 1: if (!hb.empty()) hb.resize(r.below(hb.size())); break;
+      default: if (!hb.empty()) hb[r.below(hb.size())] ^= (uint8_t)(1u << r.below(8)); break;
+    }
+    std::vector<int32_t> hout; long hleft = -1;
+    const bool hok = gn_run_dec(c, pa, hc, hb, hout, hleft);
+    g_cnt[N_HOSTILE]++; if (!hok) g_cnt[N_HOSTILE_FAIL]++;
+    o.c(dl + join(hc) + " " + flat_bytes(hb), hok ? "ok " + join(hout) + " " + S(hleft) : "fail");
+  }
+}
+
 int main(int argc, char **argv) {
   if (argc < 4) { fprintf(stderr, "usage: h_pred <tier> <seed> <outfile>\n"); return 2; }
   const bool thorough = !strcmp(argv[1], "thorough");
@@ -478,6 +614,23 @@ int main(int argc, char **argv) {
       gen_positions(r, c, (int64_t)1 << (2 + r.below(mode == 18 ? 27 : 12)));
       do_scheme<TcE, TcD>(r, o, c, "tc", hostile); g_cnt[N_TC]++;
     }
+    {  // geometric normal: octahedral coordinates with q bits; every vertex-to-data entry must be a valid entry (positions of
+       // all neighbours are read): arbitrary maps are clamped into [0, n)
+      for (auto &x : c.v2d) if (x >= c.n()) x = c.n() - 1;
+      bool valid = true;
+      for (int k = 0; k < c.ct->num_corners(); k++) { int v = c.ct->Vertex(CornerIndex(k)).value(); if (c.v2d[v] < 0) valid = false; }
+      if (valid) {
+        c.nc = 2;
+        const int q = 2 + (int)r.below(r.chance(70) ? 12 : 29);
+        int kind = (int)r.below(12);
+        kind = kind < 3 ? 0 : kind < 5 ? 1 : kind < 8 ? 2 : kind < 9 ? 3 : kind < 11 ? 4 : 5;
+        if (kind == 2) g_cnt[N_GN_CURTAIN]++;
+        if (kind == 4) g_cnt[N_GN_DEGEN]++;
+        gn_positions(r, c, kind);
+        gn_values(r, c, q);
+        do_gn(r, o, c, q, hostile); g_cnt[N_GN]++;
+      }
+    }
   }
   // The hypothesis the proofs forced (decoder guards `num_flags > num_corners`, `num_orientations > num_corners`), run on
   // the real code: maps with MORE ENTRIES THAN VERTICES (outside the contract "one entry per vertex").  The encoder
@@ -509,11 +662,11 @@ int main(int argc, char **argv) {
       do_scheme<TcE, TcD>(r, o, c, "tc", false);
     }
   }
-  char buf[512];
+  char buf[800];
   snprintf(buf, sizeof buf, "counts par=%ld mp=%ld tc=%ld maps_bfs=%ld maps_rnd=%ld maps_junk=%ld mp_flags=%ld mp_used=%ld tc_orientations=%ld "
-           "enc_fail=%ld tc_enc_false=%ld hostile=%ld hostile_rejected=%ld guard_skips=%ld",
+           "enc_fail=%ld tc_enc_false=%ld hostile=%ld hostile_rejected=%ld guard_skips=%ld gn=%ld gn_flips=%ld gn_curtain=%ld gn_degenerate=%ld",
            g_cnt[N_PAR], g_cnt[N_MP], g_cnt[N_TC], g_cnt[N_MAP_BFS], g_cnt[N_MAP_RND], g_cnt[N_MAP_JUNK], g_cnt[N_MP_FLAGS], g_cnt[N_MP_USED],
-           g_cnt[N_TC_ORI], g_cnt[N_ENC_FAIL], g_cnt[N_TC_FALSE], g_cnt[N_HOSTILE], g_cnt[N_HOSTILE_FAIL], g_cnt[N_GUARD_SKIP]);
+           g_cnt[N_TC_ORI], g_cnt[N_ENC_FAIL], g_cnt[N_TC_FALSE], g_cnt[N_HOSTILE], g_cnt[N_HOSTILE_FAIL], g_cnt[N_GUARD_SKIP], g_cnt[N_GN], g_cnt[N_GN_FLIPS], g_cnt[N_GN_CURTAIN], g_cnt[N_GN_DEGEN]);
   o.note(buf);
   return 0;
 }
